@@ -124,6 +124,18 @@ def run_corpus(tag="memo"):
         inc = [reads[16] - reads[8], (reads[32] - reads[16]) / 2.0, (reads[64] - reads[32]) / 4.0]
         if max(inc) > 1.5 * max(1, min(inc)):
             mism.append("token reads do not grow linearly with nesting depth: %s" % reads)
+    # the same through the public entry point (oal_syntax::parse inside the playground's compile): a text of some fifty
+    # tokens nested 20 deep is answered at once when work is linear - and not within half a minute when it is not
+    try:
+        from vcommon import build_wasmdrv, run_wasm
+        wdrv = build_wasmdrv()
+        for shape, text in (("parens", "let a = " + "(" * 20 + "num" + ")" * 20 + ";\n"), ("arrays", "let a = " + "[" * 20 + "num" + "]" * 20 + ";\nres / on get -> <a>;\n")):
+            w = run_wasm(wdrv, text, timeout=30)
+            detail["entry-point-short-deep-" + shape] = {"rc": w["rc"], "status": w["status"]}
+            if w["rc"] != 0 or w["status"] is None:
+                mism.append("short text nested 20 deep (%s): the public entry point does not answer within 30 s (rc=%s): the work is not linear in the number of tokens" % (shape, w["rc"]))
+    except Exception as exn:
+        mism.append("entry-point measurement could not run: %s" % str(exn)[:100])
     with open(os.path.join(rdir, "cmd"), "w") as f:
         f.write("#!/bin/sh\ncd /verif && exec ./check C12 --replay %s\n" % rdir)
     return mism, rdir, detail
@@ -239,6 +251,37 @@ def memo_lemmas(o, L, S, E, MM, MS, fs, structural, on_sat, bad):
     tags = sorted(set(tags))
     o.extra["memoised_productions"] = tags
     structural("parser: every memoize call site uses a tag of its own", len({t[1] for t in tags}) == len({t[0] for t in tags}) and len(tags) >= 2)
+    # the entry point parses with the table on: the context handed to parse_program is Context::new(tokens) itself, and
+    # nothing in oal-syntax ever calls the switch that turns caching off
+    try:
+        f_parse = MS.one(r"^parse$")
+        o.functions.append(mirlib.func_ref(f_parse, "oal-syntax"))
+        exq = mirlib.executor([MS])
+        seen_pp, okp = 0, True
+        for p in exq.run(f_parse, arg_names=["loc", "input"]):
+            calls = list(p.calls())
+            if any(e[1].endswith("without_cache") for e in calls):
+                okp = False
+            for e in calls:
+                if e[1] == "parse_program":
+                    seen_pp += 1
+                    news = [x for x in calls if x[1] == "Context::new"]
+                    ctx = e[2][0]
+                    while ctx[0] == "addr":
+                        ctx = ctx[1]
+                    while ctx[0] == "out":          # head() and the like borrow the context before the parser gets it
+                        ctx = ctx[3][ctx[2]]
+                        while ctx[0] == "addr":
+                            ctx = ctx[1]
+                    if len(news) != 1 or ctx != news[0][3]:
+                        okp = False
+        mirlib.check_translator(o, exq, "oal_syntax::parse")
+        txt = open(MS.path).read()
+        users = sorted(set(m.group(1) for m in re.finditer(r"^fn ([^\n(]+)\(.*?^\}", txt, re.M | re.S) if re.search(r"without_cache(::<[^>]*>)?\(", m.group(0))))
+        structural("oal_syntax::parse: the parser runs on Context::new(tokens) with the memo table on (nothing in oal-syntax switches it off)", okp and seen_pp >= 1 and not users,
+                   "oal_syntax::parse: the memo table can be switched off before parsing (%s)" % (", ".join(users)[:80] or "in parse"))
+    except KeyError as exn:
+        o.inconc(str(exn)[:160])
 
 
 
